@@ -483,4 +483,298 @@ theorem arrName_inj {i k : Nat} (hi : i < 13) (hk : k < 13) (h : i ≠ k) : arrN
   first | (exact absurd rfl h) | (simp only [arrName]; decide)
 
 
+
+/-! ### set → get round trip, per component -/
+
+theorem lookup_setWrites [Scalar K] {α : Type} (U : α → Write K → α) (sig : Int) (dm : Dims) (s : Int → K)
+    (w : Int) (k : Nat) (hk : k < 13) (idx : List Int) (d : α) :
+    lookupG U (setWrites sig dm s w) (arrName k) idx d
+      = if bit sig k then lookupG U (setComp dm s w (offset sig (sizes dm) k) k) (arrName k) idx d else d := by
+  rw [setWrites_eq_chain]
+  exact lookupG_chain U sig (sizes dm) (fun k a => setComp dm s w a k) arrName
+    (fun i a x hx => (mem_setComp hx).2.1) 13 k (fun i hi hik => arrName_inj hi hk hik) hk idx d
+
+/-- `Write.lookupF` is a `lookupG` whose update returns the stored float on a plain float store -/
+theorem lookupF_spec [Scalar K] : ∃ U : K → Write K → K,
+    (∀ ws arr idx d, Write.lookupF ws arr idx d = lookupG U ws arr idx d) ∧
+    (∀ acc arr idx x, U acc ⟨arr, idx, WVal.f x, WKind.set⟩ = x) :=
+  ⟨_, fun _ _ _ _ => rfl, fun _ _ _ _ => rfl⟩
+
+theorem lookupB_spec : ∃ U : Bool → Write K → Bool,
+    (∀ ws arr idx d, Write.lookupB ws arr idx d = lookupG U ws arr idx d) ∧
+    (∀ acc arr idx x, U acc ⟨arr, idx, WVal.b x, WKind.set⟩ = x) :=
+  ⟨_, fun _ _ _ _ => rfl, fun _ _ _ _ => rfl⟩
+
+theorem flatten_range_block {α : Type} (c m : Nat) (h : Nat → α) :
+    ((List.range m).map (fun j => (List.range c).map (fun i => h (c * j + i)))).flatten
+      = (List.range (c * m)).map h := by
+  induction m with
+  | zero => simp
+  | succ m ih =>
+    rw [List.range_succ, List.map_append, List.flatten_append, ih, Nat.mul_succ, List.range_add,
+      List.map_append, List.map_map]
+    simp [Function.comp_def]
+
+theorem flatten_tab_block {α : Type} (c : Nat) (n : Int) (hn : 0 ≤ n) (g : Int → α) :
+    (tab n (fun j => (List.range c).map (fun i => g ((c : Int) * j + Int.ofNat i)))).flatten
+      = tab ((c : Int) * n) g := by
+  obtain ⟨m, rfl⟩ := Int.eq_ofNat_of_zero_le hn
+  have := flatten_range_block c m (fun t => g (Int.ofNat t))
+  simp only [tab, Int.toNat_natCast, ← Int.natCast_mul] at this ⊢
+  rw [← this]
+  simp only [Int.ofNat_eq_natCast, Int.natCast_add, Int.natCast_mul]
+
+/-- the value read back for one float of component k -/
+def rtv [Scalar K] (k : Nat) (x : K) : K := if k = 9 then b2f (f2b x) else x
+
+theorem lookup_setScalars {α : Type} (U : α → Write K → α) (vf : K → α)
+    (hU : ∀ acc arr idx x, U acc ⟨arr, idx, WVal.f x, WKind.set⟩ = vf x)
+    (arr : String) (w n : Int) (s : Int → K) (adr i : Int) (h0 : 0 ≤ i) (hi : i < n) (d : α) :
+    lookupG U (setScalars arr w n s adr) arr [w, i] d = vf (s (adr + i)) :=
+  lookupG_tab_hit U arr w n _ (fun _ => ⟨rfl, rfl⟩) i h0 hi _ (fun acc => hU acc _ _ _) d
+
+theorem lookup_setVectors {α : Type} (U : α → Write K → α) (arr : String) (w n : Int) (c : Nat) (s : Int → K)
+    (adr i : Int) (h0 : 0 ≤ i) (hi : i < n) (d : α) (r : α)
+    (hU : ∀ acc, U acc ⟨arr, [w, i], WVal.v ((List.range c).map (fun t => s (adr + (c : Int) * i + Int.ofNat t))),
+      WKind.set⟩ = r) :
+    lookupG U (setVectors arr w n c s adr) arr [w, i] d = r :=
+  lookupG_tab_hit U arr w n _ (fun _ => ⟨rfl, rfl⟩) i h0 hi r hU d
+
+section
+variable [Scalar K] (sig : Int) (dm : Dims) (s : Int → K) (w : Int) (d0 : Data K)
+
+/-- scalar float components read back exactly what `set_state` stored -/
+theorem post_scalar (k : Nat) (hk : k < 13) (hb : bit sig k = true) (n : Int) (i : Int) (h0 : 0 ≤ i) (hi : i < n)
+    (hc : setComp dm s w (offset sig (sizes dm) k) k = setScalars (arrName k) w n s (offset sig (sizes dm) k))
+    (d : K) :
+    Write.lookupF (setWrites sig dm s w) (arrName k) [w, i] d = s (offset sig (sizes dm) k + i) := by
+  obtain ⟨U, h1, h2⟩ := lookupF_spec (K := K)
+  rw [h1, lookup_setWrites U sig dm s w k hk, hb, if_pos rfl, hc]
+  exact lookup_setScalars U id h2 _ w n s _ i h0 hi d
+
+theorem post_time (hb : bit sig 0 = true) (d : K) :
+    Write.lookupF (setWrites sig dm s w) "time_out" [w] d = s 0 := by
+  obtain ⟨U, h1, h2⟩ := lookupF_spec (K := K)
+  rw [h1]
+  have := lookup_setWrites U sig dm s w 0 (by omega) [w] d
+  rw [hb, if_pos rfl] at this
+  rw [show "time_out" = arrName 0 from rfl, this]
+  simp only [setComp, lookupG, List.foldl_cons, List.foldl_nil, offset, arrName, beq_self_eq_true, Bool.and_self,
+    if_true, h2]
+
+theorem post_eq_active (hb : bit sig 9 = true) (i : Int) (h0 : 0 ≤ i) (hi : i < dm.neq) (d : Bool) :
+    Write.lookupB (setWrites sig dm s w) "eq_active_out" [w, i] d = f2b (s (offset sig (sizes dm) 9 + i)) := by
+  obtain ⟨U, h1, h2⟩ := lookupB_spec (K := K)
+  rw [h1]
+  have := lookup_setWrites U sig dm s w 9 (by omega) [w, i] d
+  rw [hb, if_pos rfl] at this
+  rw [show "eq_active_out" = arrName 9 from rfl, this]
+  exact lookupG_tab_hit U (arrName 9) w dm.neq
+    (fun j => ⟨"eq_active_out", [w, j], WVal.b (f2b (s (offset sig (sizes dm) 9 + j))), WKind.set⟩)
+    (fun _ => ⟨rfl, rfl⟩) i h0 hi _ (fun acc => h2 acc _ _ _) d
+
+theorem post_xfrc (hb : bit sig 8 = true) (i : Int) (h0 : 0 ≤ i) (hi : i < dm.nbody) (d : V6 K) :
+    V6.toList (lookupG updV6 (setWrites sig dm s w) "xfrc_applied_out" [w, i] d)
+      = (List.range 6).map (fun t => s (offset sig (sizes dm) 8 + ((6 : Nat) : Int) * i + Int.ofNat t)) := by
+  have := lookup_setWrites updV6 sig dm s w 8 (by omega) [w, i] d
+  rw [hb, if_pos rfl] at this
+  rw [show "xfrc_applied_out" = arrName 8 from rfl, this]
+  rw [show setComp dm s w (offset sig (sizes dm) 8) 8 = setVectors (arrName 8) w dm.nbody 6 s _ from rfl]
+  rw [lookup_setVectors updV6 _ w dm.nbody 6 s _ i h0 hi d _ (fun acc => rfl)]
+  simp only [range6, List.map_cons, List.map_nil, V6.toList]
+
+theorem post_mocap_pos (hb : bit sig 10 = true) (i : Int) (h0 : 0 ≤ i) (hi : i < dm.nmocap) (d : V3 K) :
+    V3.toList (lookupG updV3 (setWrites sig dm s w) "mocap_pos_out" [w, i] d)
+      = (List.range 3).map (fun t => s (offset sig (sizes dm) 10 + ((3 : Nat) : Int) * i + Int.ofNat t)) := by
+  have := lookup_setWrites updV3 sig dm s w 10 (by omega) [w, i] d
+  rw [hb, if_pos rfl] at this
+  rw [show "mocap_pos_out" = arrName 10 from rfl, this]
+  rw [show setComp dm s w (offset sig (sizes dm) 10) 10 = setVectors (arrName 10) w dm.nmocap 3 s _ from rfl]
+  rw [lookup_setVectors updV3 _ w dm.nmocap 3 s _ i h0 hi d _ (fun acc => rfl)]
+  simp only [range3, List.map_cons, List.map_nil, V3.toList]
+
+theorem post_mocap_quat (hb : bit sig 11 = true) (i : Int) (h0 : 0 ≤ i) (hi : i < dm.nmocap) (d : Q K) :
+    Q.toList (lookupG updQ (setWrites sig dm s w) "mocap_quat_out" [w, i] d)
+      = (List.range 4).map (fun t => s (offset sig (sizes dm) 11 + ((4 : Nat) : Int) * i + Int.ofNat t)) := by
+  have := lookup_setWrites updQ sig dm s w 11 (by omega) [w, i] d
+  rw [hb, if_pos rfl] at this
+  rw [show "mocap_quat_out" = arrName 11 from rfl, this]
+  rw [show setComp dm s w (offset sig (sizes dm) 11) 11 = setVectors (arrName 11) w dm.nmocap 4 s _ from rfl]
+  rw [lookup_setVectors updQ _ w dm.nmocap 4 s _ i h0 hi d _ (fun acc => rfl)]
+  simp only [range4, List.map_cons, List.map_nil, Q.toList]
+
+/-- after `set_state`'s writes, every selected component of world w reads back the corresponding
+    segment of the state row (EQ_ACTIVE through float → Bool → float) -/
+theorem comp_post (h : dm.Nonneg) (k : Nat) (hk : k < 13) (hb : bit sig k = true) :
+    comp dm (applyWrites (setWrites sig dm s w) d0) w k
+      = tab ((sizes dm).getD k 0) (fun j => rtv k (s (offset sig (sizes dm) k + j))) := by
+  have hk' : k = 0 ∨ k = 1 ∨ k = 2 ∨ k = 3 ∨ k = 4 ∨ k = 5 ∨ k = 6 ∨ k = 7 ∨ k = 8 ∨ k = 9 ∨ k = 10
+      ∨ k = 11 ∨ k = 12 := by omega
+  rcases hk' with rfl | rfl | rfl | rfl | rfl | rfl | rfl | rfl | rfl | rfl | rfl | rfl | rfl
+  · simp only [comp, applyWrites, post_time sig dm s w hb, sizes, List.getD_cons_zero, offset]
+    simp [tab, rtv]
+  · exact tab_congr (fun j h0 hj => post_scalar sig dm s w 1 hk hb dm.nq j h0 hj rfl _)
+  · exact tab_congr (fun j h0 hj => post_scalar sig dm s w 2 hk hb dm.nv j h0 hj rfl _)
+  · exact tab_congr (fun j h0 hj => post_scalar sig dm s w 3 hk hb dm.na j h0 hj rfl _)
+  · exact tab_congr (fun j h0 hj => post_scalar sig dm s w 4 hk hb dm.nhistory j h0 hj rfl _)
+  · exact tab_congr (fun j h0 hj => post_scalar sig dm s w 5 hk hb dm.nv j h0 hj rfl _)
+  · exact tab_congr (fun j h0 hj => post_scalar sig dm s w 6 hk hb dm.nu j h0 hj rfl _)
+  · exact tab_congr (fun j h0 hj => post_scalar sig dm s w 7 hk hb dm.nv j h0 hj rfl _)
+  · have e : (sizes dm).getD 8 0 = ((6 : Nat) : Int) * dm.nbody := rfl
+    rw [e, ← flatten_tab_block 6 dm.nbody h.nbody]
+    simp only [comp]
+    congr 1
+    refine tab_congr (fun j h0 hj => ?_)
+    simp only [applyWrites, post_xfrc sig dm s w hb j h0 hj, rtv, Int.add_assoc]
+    rfl
+  · simp only [comp, sizes, List.getD_cons_succ, List.getD_cons_zero]
+    refine tab_congr (fun j h0 hj => ?_)
+    simp only [applyWrites, post_eq_active sig dm s w hb j h0 hj, rtv, if_true]
+    rfl
+  · have e : (sizes dm).getD 10 0 = ((3 : Nat) : Int) * dm.nmocap := rfl
+    rw [e, ← flatten_tab_block 3 dm.nmocap h.nmocap]
+    simp only [comp]
+    congr 1
+    refine tab_congr (fun j h0 hj => ?_)
+    simp only [applyWrites, post_mocap_pos sig dm s w hb j h0 hj, rtv, Int.add_assoc]
+    rfl
+  · have e : (sizes dm).getD 11 0 = ((4 : Nat) : Int) * dm.nmocap := rfl
+    rw [e, ← flatten_tab_block 4 dm.nmocap h.nmocap]
+    simp only [comp]
+    congr 1
+    refine tab_congr (fun j h0 hj => ?_)
+    simp only [applyWrites, post_mocap_quat sig dm s w hb j h0 hj, rtv, Int.add_assoc]
+    rfl
+  · exact tab_congr (fun j h0 hj => post_scalar sig dm s w 12 hk hb dm.nuserdata j h0 hj rfl _)
+
+theorem rtv_eq_roundtripVal (h : dm.Nonneg) (k : Nat) (hb : bit sig k = true) (j : Int) (h0 : 0 ≤ j)
+    (hj : j < (sizes dm).getD k 0) :
+    rtv k (s (offset sig (sizes dm) k + j)) = roundtripVal sig dm s (offset sig (sizes dm) k + j) := by
+  have hnn := sizes_nonneg h
+  have hsucc := offset_succ_of_bit (sz := sizes dm) hb
+  unfold rtv roundtripVal
+  rcases Nat.lt_trichotomy k 9 with h1 | h1 | h1
+  · have := offset_mono sig hnn (show k + 1 ≤ 9 by omega)
+    rw [if_neg (by omega), if_neg (by omega)]
+  · subst h1
+    have hs : offset sig (sizes dm) 10 = offset sig (sizes dm) 9 + (sizes dm).getD 9 0 := hsucc
+    rw [if_pos rfl, if_pos ⟨hb, by omega, by omega⟩]
+  · have := offset_mono sig hnn (show 10 ≤ k by omega)
+    rw [if_neg (by omega), if_neg (by omega)]
+
+end
+
+theorem flatMap_vals {α : Type} (sig : Int) (sz : List Int) (g : Int → α) (C : Nat → List α) (n : Nat)
+    (hnn : ∀ k, 0 ≤ sz.getD k 0)
+    (h : ∀ k, k < n → bit sig k = true → C k = tab (sz.getD k 0) (fun j => g (offset sig sz k + j))) :
+    (List.range n).flatMap (fun k => if bit sig k then C k else []) = tab (offset sig sz n) g := by
+  induction n with
+  | zero => simp [offset, tab]
+  | succ n ih =>
+    rw [List.range_succ, List.flatMap_append, ih (fun k hk => h k (by omega))]
+    simp only [List.flatMap_cons, List.flatMap_nil, List.append_nil, offset]
+    cases hb : bit sig n
+    · simp
+    · simp only [if_true]
+      rw [tab_add _ _ (offset_nonneg sig hnn n) (hnn n), h n (Nat.lt_succ_self n) hb]
+
+theorem stateVec_post [Scalar K] (sig : Int) (dm : Dims) (s : Int → K) (w : Int) (d0 : Data K) (h : dm.Nonneg) :
+    stateVec sig dm (applyWrites (setWrites sig dm s w) d0) w
+      = tab (stateSize sig (sizes dm)) (roundtripVal sig dm s) := by
+  apply flatMap_vals sig (sizes dm) _ _ 13 (sizes_nonneg h)
+  intro k hk hb
+  rw [comp_post sig dm s w d0 h k hk hb]
+  exact tab_congr (fun j h0 hj => rtv_eq_roundtripVal sig dm s h k hb j h0 hj)
+
+/-! ### meaning of the signature test -/
+
+theorem ofInt_two_pow (k : Nat) : BitVec.ofInt 32 ((2 : Int) ^ k) = BitVec.twoPow 32 k := by
+  have : ((2 : Int) ^ k) = ((2 ^ k : Nat) : Int) := by simp
+  rw [this, BitVec.ofInt_natCast]
+  apply BitVec.eq_of_toNat_eq
+  simp [BitVec.toNat_twoPow]
+
+theorem twoPow_ne_zero (k : Nat) (hk : k < 32) : BitVec.twoPow 32 k ≠ 0#32 := by
+  intro h
+  have := congrArg BitVec.toNat h
+  rw [BitVec.toNat_twoPow] at this
+  have h2 : 2 ^ k < 2 ^ 32 := Nat.pow_lt_pow_right (by omega) hk
+  rw [Nat.mod_eq_of_lt h2] at this
+  have : 0 < 2 ^ k := Nat.two_pow_pos k
+  simp at *
+
+/-- the kernels' test `(1 << k) & sig != 0` is "bit k of sig is set" (two's complement, k < 32) -/
+theorem bit_eq_testBit (sig : Int) (hs : 0 ≤ sig) (k : Nat) (hk : k < 32) : bit sig k = sig.toNat.testBit k := by
+  obtain ⟨n, rfl⟩ := Int.eq_ofNat_of_zero_le hs
+  unfold bit iand
+  rw [ofInt_two_pow, BitVec.twoPow_and, BitVec.ofInt_natCast, Int.toNat_natCast]
+  have hz : ((0#32).toInt) = 0 := BitVec.toInt_zero
+  by_cases hb : (BitVec.ofNat 32 n).getLsbD k = true
+  · have hb' := hb
+    rw [BitVec.getLsbD_ofNat] at hb'
+    simp only [hb, if_true]
+    have : (BitVec.twoPow 32 k).toInt ≠ 0 := by
+      rw [← hz]; intro h; exact twoPow_ne_zero k hk (BitVec.toInt_inj.mp h)
+    simp_all
+  · have hb' := hb
+    rw [BitVec.getLsbD_ofNat] at hb'
+    simp_all
+
+/-- membership in the `set_state` specification list, unfolded -/
+theorem mem_setWrites [Scalar K] {sig : Int} {dm : Dims} {s : Int → K} {w : Int} {x : Write K}
+    (hx : x ∈ setWrites sig dm s w) :
+    ∃ k, k < 13 ∧ bit sig k = true ∧ x.arr = arrName k ∧ x.kind = WKind.set ∧ x.idx.head? = some w := by
+  rw [setWrites_eq_chain] at hx
+  obtain ⟨k, _, hb, hk⟩ := mem_chain hx
+  obtain ⟨h1, h2, h3, h4⟩ := mem_setComp hk
+  exact ⟨k, h1, hb, h2, h3, h4⟩
+
+/-! ### memory-level frames -/
+
+theorem lookupF_skip [Scalar K] (ws : List (Write K)) (arr : String) (idx : List Int) (d : K)
+    (h : ∀ x ∈ ws, x.arr ≠ arr ∨ x.idx ≠ idx) : Write.lookupF ws arr idx d = d := by
+  obtain ⟨U, h1, _⟩ := lookupF_spec (K := K)
+  rw [h1]; exact lookupG_skip U ws arr idx d h
+
+theorem lookupB_skip (ws : List (Write K)) (arr : String) (idx : List Int) (d : Bool)
+    (h : ∀ x ∈ ws, x.arr ≠ arr ∨ x.idx ≠ idx) : Write.lookupB ws arr idx d = d := by
+  obtain ⟨U, h1, _⟩ := lookupB_spec (K := K)
+  rw [h1]; exact lookupG_skip U ws arr idx d h
+
+/-- a component of a world that no write addresses is unchanged by `applyWrites` -/
+theorem comp_unchanged [Scalar K] (dm : Dims) (ws : List (Write K)) (d0 : Data K) (w' : Int) (k : Nat)
+    (H : ∀ x ∈ ws, x.arr ≠ arrName k ∨ x.idx.head? ≠ some w') :
+    comp dm (applyWrites ws d0) w' k = comp dm d0 w' k := by
+  have hs : ∀ idx : List Int, idx.head? = some w' → ∀ x ∈ ws, x.arr ≠ arrName k ∨ x.idx ≠ idx := by
+    intro idx hidx x hx
+    rcases H x hx with h | h
+    · exact Or.inl h
+    · right; intro e; rw [e] at h; exact h hidx
+  rcases Nat.lt_or_ge k 13 with hk | hk
+  · have hk' : k = 0 ∨ k = 1 ∨ k = 2 ∨ k = 3 ∨ k = 4 ∨ k = 5 ∨ k = 6 ∨ k = 7 ∨ k = 8 ∨ k = 9 ∨ k = 10
+        ∨ k = 11 ∨ k = 12 := by omega
+    rcases hk' with rfl | rfl | rfl | rfl | rfl | rfl | rfl | rfl | rfl | rfl | rfl | rfl | rfl
+    · exact congrArg (fun x => [x]) (lookupF_skip _ _ _ _ (hs [w'] rfl))
+    · exact tab_congr (fun j _ _ => lookupF_skip _ _ _ _ (hs [w', j] rfl))
+    · exact tab_congr (fun j _ _ => lookupF_skip _ _ _ _ (hs [w', j] rfl))
+    · exact tab_congr (fun j _ _ => lookupF_skip _ _ _ _ (hs [w', j] rfl))
+    · exact tab_congr (fun j _ _ => lookupF_skip _ _ _ _ (hs [w', j] rfl))
+    · exact tab_congr (fun j _ _ => lookupF_skip _ _ _ _ (hs [w', j] rfl))
+    · exact tab_congr (fun j _ _ => lookupF_skip _ _ _ _ (hs [w', j] rfl))
+    · exact tab_congr (fun j _ _ => lookupF_skip _ _ _ _ (hs [w', j] rfl))
+    · simp only [comp]
+      congr 1
+      exact tab_congr (fun j _ _ => congrArg V6.toList (lookupG_skip updV6 _ _ _ _ (hs [w', j] rfl)))
+    · simp only [comp]
+      exact tab_congr (fun j _ _ => congrArg b2f (lookupB_skip _ _ _ _ (hs [w', j] rfl)))
+    · simp only [comp]
+      congr 1
+      exact tab_congr (fun j _ _ => congrArg V3.toList (lookupG_skip updV3 _ _ _ _ (hs [w', j] rfl)))
+    · simp only [comp]
+      congr 1
+      exact tab_congr (fun j _ _ => congrArg Q.toList (lookupG_skip updQ _ _ _ _ (hs [w', j] rfl)))
+    · exact tab_congr (fun j _ _ => lookupF_skip _ _ _ _ (hs [w', j] rfl))
+  · obtain ⟨m, rfl⟩ : ∃ m, k = m + 13 := ⟨k - 13, by omega⟩
+    rfl
+
 end Mjw.Lemmas.C15
